@@ -72,6 +72,7 @@ class _Run:
         self.rec = None
         self.label = ""
         self.nsaves = 0
+        self.aborted = None
         self.busy = False  # inside a snapshot analysis (the hooks must stay quiet)
 
     # -- directory helpers
@@ -296,55 +297,61 @@ class _Run:
         Mf.IH5Manifest.save = mfsave_hook
         rng = self.rng
         try:
-            self.label = "create-base"
-            r = self.cls(base, "w")
-            self.snap("create-base")
-            steps = self.case.get("steps", 14)
-            i = 0
-            while i < steps:
-                i += 1
-                writable = r._has_writable
-                nfiles = len(r.ih5_files)
-                x = rng.random()
-                if writable and x < 0.35:
-                    self.label = "write"
-                    cc.rand_writes(r, rng, rng.randrange(1, 4))
-                    if rng.random() < 0.3:
-                        for f in r._files:
-                            if f.mode == "r+":
-                                f.flush()
-                elif writable and x < 0.65:
-                    self.label = "commit"
-                    self.pending_dump = cc.dump(r)
-                    self.in_commit = True
-                    r.commit_patch()
-                    self.in_commit = False
-                    name = os.path.basename(str(r.ih5_files[-1]))
-                    p = os.path.join(self.d, name)
-                    mh = cc.sha(open(p + "mf.json", "rb").read()) if (self.mf and os.path.isfile(p + "mf.json")) else None
-                    self.committed.append((name, cc.sha(open(p, "rb").read()), mh))
-                    self.committed_dump = cc.dump(r)
-                    if self.committed_dump != self.pending_dump:
-                        self.hit("commit-changes-view", at="commit")
-                    self.pending_dump = None
-                elif writable and x < 0.75 and nfiles > 1:
-                    self.label = "discard"
-                    r.discard_patch()
-                elif not writable and x < 0.7:
-                    self.label = "create-patch"
-                    r.create_patch()
-                elif x < 0.9:
-                    self.label = "close-reopen"
-                    r.close(commit=False)
-                    self.snap("closed")
-                    r = self.cls(base, "r+")
-                else:
-                    self.label = "write"
-                    if writable:
-                        cc.rand_writes(r, rng, 1)
-                self.snap(self.label)
-            r.close(commit=False)
-            self.snap("final-close")
+            try:
+                self.label = "create-base"
+                r = self.cls(base, "w")
+                self.snap("create-base")
+                steps = self.case.get("steps", 14)
+                i = 0
+                while i < steps:
+                    i += 1
+                    writable = r._has_writable
+                    nfiles = len(r.ih5_files)
+                    x = rng.random()
+                    if writable and x < 0.35:
+                        self.label = "write"
+                        cc.rand_writes(r, rng, rng.randrange(1, 4))
+                        if rng.random() < 0.3:
+                            for f in r._files:
+                                if f.mode == "r+":
+                                    f.flush()
+                    elif writable and x < 0.65:
+                        self.label = "commit"
+                        self.pending_dump = cc.dump(r)
+                        self.in_commit = True
+                        r.commit_patch()
+                        self.in_commit = False
+                        name = os.path.basename(str(r.ih5_files[-1]))
+                        p = os.path.join(self.d, name)
+                        mh = cc.sha(open(p + "mf.json", "rb").read()) if (self.mf and os.path.isfile(p + "mf.json")) else None
+                        self.committed.append((name, cc.sha(open(p, "rb").read()), mh))
+                        self.committed_dump = cc.dump(r)
+                        if self.committed_dump != self.pending_dump:
+                            self.hit("commit-changes-view", at="commit")
+                        self.pending_dump = None
+                    elif writable and x < 0.75 and nfiles > 1:
+                        self.label = "discard"
+                        r.discard_patch()
+                    elif not writable and x < 0.7:
+                        self.label = "create-patch"
+                        r.create_patch()
+                    elif x < 0.9:
+                        self.label = "close-reopen"
+                        r.close(commit=False)
+                        self.snap("closed")
+                        r = self.cls(base, "r+")
+                    else:
+                        self.label = "write"
+                        if writable:
+                            cc.rand_writes(r, rng, 1)
+                    self.snap(self.label)
+                r.close(commit=False)
+                self.snap("final-close")
+            except Exception as e:  # noqa: BLE001
+                # the real code refused a legal call (typically the consequence of a violation that the
+                # snapshot oracle has already recorded); stop this history, keep what was observed
+                self.aborted = "%s at %s: %s" % (type(e).__name__, self.label, str(e)[-80:])
+                self.tags.add("history-aborted")
         finally:
             R.IH5UserBlock.save, R.hashsum_file, Mf.IH5Manifest.save = orig_save, orig_hash, orig_mfsave
             _close_leaked()
@@ -353,7 +360,7 @@ class _Run:
         if len(self.committed) >= 2:
             self.tags.add("committed>=2")
         return dict(out=self.out, mlines=self.ml.lines, sel=self.sel, oracle=self.oracle, tags=sorted(self.tags),
-                    diag={"snapshots": self.nsnap, "saves": self.nsaves})
+                    diag={"snapshots": self.nsnap, "saves": self.nsaves, "aborted-histories": 1 if self.aborted else 0}, aborted=self.aborted)
 
 
 def _close_leaked():
